@@ -338,6 +338,32 @@ def shadow_histories():
                    "shape": f"shadow:{len(data)}"}
 
 
+def alias_histories():
+    """the caller keeps a surrogate object and passes it AGAIN (to a second `add_surrogate` with an override, back to
+    `update_surrogate`, after the model changed its own copy): the model must not have written into the caller's object,
+    so every call sees the object's original content (F-C03-12)"""
+    T = {**sur(["o1"]), "tag": "T"}
+    AL = {**sur(["o1"]), "alias": "T"}
+    tails = [["q", "names", "surouts"], ["q", "args", None, "0"], ["remove_surrogate", "n1"], ["remove_surrogate", "n2"],
+             ["add_parameter", "o1", V(1)], ["q", "eq"]]
+    bodies = {
+        "twice:outputs": [["add_surrogate", "n1", T], ["add_surrogate", "n2", AL, None, ["o2"], None]],
+        "twice:plain": [["add_surrogate", "n1", T], ["add_surrogate", "n2", AL]],
+        "override-first": [["add_surrogate", "n1", T, ["y"], ["o3"], [["o3", [["x", {"c": "1"}]]]]],
+                           ["add_surrogate", "n2", AL]],
+        "update-own-then-again": [["add_surrogate", "n1", T], ["update_surrogate", "n1", None, None, ["z1"], None],
+                                  ["add_surrogate", "n2", AL]],
+        "update-with-kept": [["add_surrogate", "n1", T], ["update_surrogate", "n1", AL, None, ["w1"], None],
+                             ["add_surrogate", "n2", AL, None, ["o2"], None]],
+        "update-other-with-kept": [["add_surrogate", "n1", T], ["add_surrogate", "n2", sur(["o4"])],
+                                   ["update_surrogate", "n2", AL, ["y"], ["o5"], None], ["update_surrogate", "n1", AL, None, None, None]],
+    }
+    for name, body in bodies.items():
+        for q in (None, QUERIES[0]):
+            mid = body[:1] + ([q] if q else []) + body[1:] + tails
+            yield {"ops": BASE + mid + BATTERY[-2:], "check_from": len(BASE), "stratum": "alias", "shape": "alias:" + name}
+
+
 def scan_histories():
     """how scans and control analysis use a model, without a Simulator: a working copy, then per point
     `update_*` → queries, and the value put back at the end; `scale_parameter` up and down around a query; an
